@@ -109,20 +109,26 @@ package internal
 //@   ensures[C03] sent_headers_refused_and_nothing_changes: old(sts.hdrsSent) ==> result != nil && sts.hdrs == old(sts.hdrs) && (forall k string :: has(sts.hdrs, k) == old(has(sts.hdrs, k)) && sts.hdrs[k] == old(sts.hdrs[k]))
 //@   loop loop#1 invariant[C03] map_ready: md != old(sts.hdrs) ==> sts.hdrs != nil && sts.hdrs != md && !(sts.hdrsSent) && held(&sts.mu) && (old(sts.hdrs) != nil ==> sts.hdrs == old(sts.hdrs))
 //@   loop loop#1 invariant[C03] visited_keys_grew_others_unchanged: md != old(sts.hdrs) ==> (forall k string :: (iter_visited(k) && has(md, k) ==> has(sts.hdrs, k) && len(sts.hdrs[k]) == old(len(sts.hdrs[k])) + len(md[k])) && (!iter_visited(k) ==> has(sts.hdrs, k) == old(has(sts.hdrs, k)) && (has(sts.hdrs, k) ==> sts.hdrs[k] == old(sts.hdrs[k]))))
+//@   loop loop#1 invariant[C03] values_of_new_keys_are_copies: md != old(sts.hdrs) ==> (forall k string :: iter_visited(k) && has(md, k) && len(md[k]) > 0 && !old(has(sts.hdrs, k)) ==> fresh_backing(sts.hdrs[k]))
 //@   loop loop#1 invariant[C03] source_map_unchanged: md != old(sts.hdrs) ==> (forall k string :: has(md, k) == old(has(md, k)) && md[k] == old(md[k]) && (iter_visited(k) ==> has(md, k)))
 //@   ensures[C03] every_given_key_grows_by_its_values: !old(sts.hdrsSent) && md != old(sts.hdrs) ==> (forall k string :: has(md, k) ==> has(sts.hdrs, k) && len(sts.hdrs[k]) == old(len(sts.hdrs[k])) + len(md[k]))
 //@   ensures[C03] other_keys_keep_their_values: !old(sts.hdrsSent) && md != old(sts.hdrs) ==> (forall k string :: !has(md, k) ==> has(sts.hdrs, k) == old(has(sts.hdrs, k)) && (has(sts.hdrs, k) ==> sts.hdrs[k] == old(sts.hdrs[k])))
 //@   ensures[C03] sent_headers_accepted_otherwise: !old(sts.hdrsSent) ==> result == nil
+//@   ensures[C03,C10] values_of_new_keys_never_share_the_handlers_slices: !old(sts.hdrsSent) && md != old(sts.hdrs) ==> (forall k string :: has(md, k) && len(md[k]) > 0 && !old(has(sts.hdrs, k)) ==> fresh_backing(sts.hdrs[k]))
+//@   ensures[C03,C10] the_accumulator_is_the_streams_own_map_never_the_handlers: !old(sts.hdrsSent) && md != old(sts.hdrs) ==> sts.hdrs != nil && sts.hdrs != md && (old(sts.hdrs) != nil ==> sts.hdrs == old(sts.hdrs))
 //@   modifies sts.hdrs, maps("metadata.MD"), mem("string")
 //
 //@ func (*UnaryServerTransportStream).SetTrailer
 //@   ensures[C03] sent_trailers_refused_and_nothing_changes: at_lock(sts.tlrsSent) ==> result != nil && sts.tlrs == at_lock(sts.tlrs) && (forall k string :: has(sts.tlrs, k) == at_lock(has(sts.tlrs, k)) && sts.tlrs[k] == at_lock(sts.tlrs[k]))
 //@   loop loop#1 invariant[C03] map_ready: md != at_lock(sts.tlrs) ==> sts.tlrs != nil && sts.tlrs != md && !(sts.tlrsSent) && held(&sts.mu) && (at_lock(sts.tlrs) != nil ==> sts.tlrs == at_lock(sts.tlrs))
 //@   loop loop#1 invariant[C03] visited_keys_grew_others_unchanged: md != at_lock(sts.tlrs) ==> (forall k string :: (iter_visited(k) && has(md, k) ==> has(sts.tlrs, k) && len(sts.tlrs[k]) == at_lock(len(sts.tlrs[k])) + len(md[k])) && (!iter_visited(k) ==> has(sts.tlrs, k) == at_lock(has(sts.tlrs, k)) && (has(sts.tlrs, k) ==> sts.tlrs[k] == at_lock(sts.tlrs[k]))))
+//@   loop loop#1 invariant[C03] values_of_new_keys_are_copies: md != at_lock(sts.tlrs) ==> (forall k string :: iter_visited(k) && has(md, k) && len(md[k]) > 0 && !at_lock(has(sts.tlrs, k)) ==> fresh_backing(sts.tlrs[k]))
 //@   loop loop#1 invariant[C03] source_map_unchanged: md != at_lock(sts.tlrs) ==> (forall k string :: has(md, k) == at_lock(has(md, k)) && md[k] == at_lock(md[k]) && (iter_visited(k) ==> has(md, k)))
 //@   ensures[C03] every_given_key_grows_by_its_values: !at_lock(sts.tlrsSent) && md != at_lock(sts.tlrs) ==> (forall k string :: has(md, k) ==> has(sts.tlrs, k) && len(sts.tlrs[k]) == at_lock(len(sts.tlrs[k])) + len(md[k]))
 //@   ensures[C03] other_keys_keep_their_values: !at_lock(sts.tlrsSent) && md != at_lock(sts.tlrs) ==> (forall k string :: !has(md, k) ==> has(sts.tlrs, k) == at_lock(has(sts.tlrs, k)) && (has(sts.tlrs, k) ==> sts.tlrs[k] == at_lock(sts.tlrs[k])))
 //@   ensures[C03] sent_trailers_accepted_otherwise: !at_lock(sts.tlrsSent) ==> result == nil
+//@   ensures[C03,C10] values_of_new_keys_never_share_the_handlers_slices: !at_lock(sts.tlrsSent) && md != at_lock(sts.tlrs) ==> (forall k string :: has(md, k) && len(md[k]) > 0 && !at_lock(has(sts.tlrs, k)) ==> fresh_backing(sts.tlrs[k]))
+//@   ensures[C03,C10] the_accumulator_is_the_streams_own_map_never_the_handlers: !at_lock(sts.tlrsSent) && md != at_lock(sts.tlrs) ==> sts.tlrs != nil && sts.tlrs != md && (at_lock(sts.tlrs) != nil ==> sts.tlrs == at_lock(sts.tlrs))
 //@   modifies sts.tlrs, maps("metadata.MD"), mem("string")
 //
 //@ func (*UnaryServerTransportStream).SetHeader
